@@ -37,6 +37,7 @@ type Prog struct {
 	A      *Anchors
 	GoRoot map[*ssa.Function]bool // started by a go statement (closure or named function)
 	GoOnly map[*ssa.Function]bool // runs only on spawned goroutines: a go root, or called only from such functions
+	idxDelCache map[*ssa.Function]bool
 }
 
 type brokenCheck struct{ msg string }
@@ -340,4 +341,64 @@ func gcBCE(repo string) (map[string]bool, error) {
 		return nil, fmt.Errorf("go build (bce): %v: %s", err, out)
 	}
 	return res, nil
+}
+
+// IsIndexDelete: f removes an object from the object index: within two calls it deletes from a membership map of the
+// object index (uuid -> id or id -> uuid) and never adds to one. (An insertion helper split off the accepting insertion
+// writes the same structures but adds membership entries.)
+func (p *Prog) IsIndexDelete(f *ssa.Function) bool {
+	if p.idxDelCache == nil {
+		p.idxDelCache = map[*ssa.Function]bool{}
+	}
+	if v, ok := p.idxDelCache[f]; ok {
+		return v
+	}
+	a := p.A
+	dels, adds := false, false
+	for _, g := range calleesWithinNoC(p, f, 2) {
+		for _, b := range g.Blocks {
+			for _, in := range b.Instrs {
+				switch v := in.(type) {
+				case *ssa.MapUpdate:
+					if n, fld, _ := loadedField(v.Map); n == a.ObjIndex && (fld == a.OIUuids || fld == a.OIObjectIds) {
+						adds = true
+					}
+				case *ssa.Call:
+					if bi, ok := v.Call.Value.(*ssa.Builtin); ok && bi.Name() == "delete" && len(v.Call.Args) > 0 {
+						if n, fld, _ := loadedField(v.Call.Args[0]); n == a.ObjIndex && (fld == a.OIUuids || fld == a.OIObjectIds) {
+							dels = true
+						}
+					}
+				}
+			}
+		}
+	}
+	res := dels && !adds
+	p.idxDelCache[f] = res
+	return res
+}
+
+// calleesWithinNoC: f and the sod functions reachable from it through at most depth static calls.
+func calleesWithinNoC(p *Prog, f *ssa.Function, depth int) []*ssa.Function {
+	seen := map[*ssa.Function]bool{f: true}
+	out := []*ssa.Function{f}
+	frontier := []*ssa.Function{f}
+	for d := 0; d < depth; d++ {
+		var next []*ssa.Function
+		for _, g := range frontier {
+			for _, b := range g.Blocks {
+				for _, in := range b.Instrs {
+					if ci, ok := in.(ssa.CallInstruction); ok {
+						if h := ci.Common().StaticCallee(); h != nil && h.Blocks != nil && !seen[h] && inSodPkg(p, h) {
+							seen[h] = true
+							out = append(out, h)
+							next = append(next, h)
+						}
+					}
+				}
+			}
+		}
+		frontier = next
+	}
+	return out
 }
